@@ -25,14 +25,6 @@ def parseOptNat (s : String) : Option Nat := if s == "-" then none else some (pa
 
 def chOf (beta : Rat) : Rat → Rat := fun de => expNeg (beta * de)
 
-def allStates : Nat → List (List Bool)
-  | 0 => [[]]
-  | n + 1 => (allStates n).flatMap fun s => [false :: s, true :: s]
-
-/-- states in binary counting order, spin 0 most significant -/
-def statesOrdered (n : Nat) : List (List Bool) :=
-  (List.range (2 ^ n)).map fun k => (List.range n).map fun i => (k / 2 ^ (n - 1 - i)) % 2 == 1
-
 def trajLoop (ch : Rat → Rat) (g : Sampler) (ns ne nw : Option Nat) (basic : Bool) :
     Nat → List Bool × RS → List String → List String × RS
   | 0, x, acc => (acc.reverse, x.2)
